@@ -922,28 +922,32 @@ def run_case(case):
 
 def describe(tier, seed):
     if tier == "quick":
-        bound = ("material: behaviours within 2 deviations of (VonMises, no hardening, no kinematic, no rate, no branch, 3D) that the constructor accepts; "
+        bound = ("material: behaviours within 2 deviations of (VonMises, no hardening, no kinematic, no rate, no branch, 3D) that the constructor accepts (114); "
                  "ALL 20-letter strain paths of length <= 3 within 1 deviation, <= 2 within 2 deviations; both local solvers on every step. "
-                 "simulation: all valid operation sequences of depth 3 (J2 plane strain QUAD4) / depth 2 (4 other material x mesh pairs)")
+                 "simulation: ALL valid operation sequences of depth 4 (J2 plane strain QUAD4), 3 (J2+Voce+AF plane stress TRI3+QUAD4; J2 3D HEXA8), 2 (Norton TRI3; Maxwell QUAD4)")
     else:
-        bound = ("material: the FULL product of behaviour factors the constructor accepts; ALL strain paths of length <= 4 within 1 deviation of the default, "
-                 "<= 3 within 2 deviations, <= 2 for the rest; both local solvers on every step. simulation: all valid operation sequences of depth 3 for 5 material x mesh pairs")
+        bound = ("material: the FULL product of behaviour factors the constructor accepts (1737 = 579 x 3 dimensions, x 2 solvers inside each case); ALL strain paths of length "
+                 "<= 4 for the default and its single deviations in yield / hardening / kinematic / rate / dimension, <= 3 within 2 deviations, <= 2 at 3 deviations, 1 for the rest. "
+                 "simulation: ALL valid operation sequences of depth 5 (J2 plane strain QUAD4; J2+Voce+AF plane stress TRI3+QUAD4) and 4 (3 other material x mesh pairs)")
     return {
-        "rule": "E2. material level: state = (total strain, packed z) of one material point, merged by fingerprint; letter = one of 20 strain increments; BFS over all paths; "
-                "every transition is one Behavior.Integrate step (batched: one Gauss point per transition) checked against the documented constitutive definitions; "
-                "tangent = Richardson difference (h = 1e-3 eps_y and h/2) along the full Kelvin basis (depth <= 2) and along one seeded generic direction (every depth), "
-                "used only where D(h), D(h/2) and the one-sided differences agree (kinks are skipped; outcome class 'fd-skips'). "
-                "simulation level: unmerged operation sequences on a fresh Simulations.InElastic; reference model = list of snapshots; the committed state is observed as the zOld "
-                "handed to Behavior.Integrate. non-trivial = at least one step flowed / relaxed (material), a plastic solve happened (simulation)",
+        "rule": "E2. material level: state = (total strain, packed z) of one material point, merged by fingerprint (rounded at 1e-7 eps_y); letter = one of 20 strain increments "
+                "+/- a e, e in {xx, yy, xy, hydrostatic, xx-yy}, a in {eps_y/2, 3 eps_y}; BFS over all paths; every transition is one Behavior.Integrate step (batched: one Gauss "
+                "point per transition) checked against the documented constitutive definitions written in numpy; "
+                "tangent = Richardson difference (h = 1e-3 eps_y and h/2) along the full Kelvin basis (transitions of depth <= 2) and along one seeded generic direction (every "
+                "transition), used only where D(h), D(h/2) and the extrapolated one-sided differences agree and the whole stencil is in the same flow regime (kinks are skipped; "
+                "outcome class 'fd-skips'). simulation level: unmerged operation sequences {Solve(load a), Solve(load b), Solve again, Save_Iter, Set_Iter(0), Set_Iter(1)} on a fresh "
+                "Simulations.InElastic; reference model = list of snapshots; the committed state is observed as the zOld handed to Behavior.Integrate and through Result('p'). "
+                "non-trivial = at least one step flowed / relaxed (material), a plastic solve happened (simulation)",
         "exhaustive": True,
         "bound": bound,
         "alphabet": {"yield": len(YIELDS), "hardening": len(HARDENINGS), "kinematic": len(KINEMATICS), "rate": len(RATES), "branches": len(BRANCHES),
                      "dimension": 3, "solver": 2, "letters": 20, "sim_ops": len(SIM_OPS), "sim_configs": len(SIM_CFGS)},
         "assumptions": [
             "steps whose local solve reports converged=False or whose plane-stress iteration raises are outside the property ('step sizes that converge'): counted (outcome class 'nonconverged-steps'), not expanded",
-            "one elastic law (isotropic E=210e3, nu=0.3), one parameter set per hardening / rate / branch letter, dt = 1 for rate-dependent and viscoelastic behaviours",
-            "sigma(eps) for the difference quotients is evaluated with the documented local solver settings tightened (_tol=1e-13, _planeStress_tol=1e-12); the tangent under test is the one returned with the default settings",
-            "tolerances: f <= 1e-8 sigma_y; tangent 2e-6 |C d|; solvers 1e-8; plane stress: documented max(_planeStress_tol*max(scale,1), 10*_tol*C_zz)",
+            "one elastic law (isotropic E=210e3, nu=0.3), one parameter set per hardening / kinematic / rate / branch letter, dt = 0.5 for rate-dependent and viscoelastic behaviours",
+            "sigma(eps) for the difference quotients is evaluated with the documented local solver settings tightened (_tol=1e-13, _planeStress_tol=1e-12, _maxIter=30) and only where that agrees with the default-settings stress; the tangent under test is the one returned with the default settings",
+            "tolerances: f <= 1e-8 sigma_y; dp >= -1e-15; |tr eps_p| <= 1e-10 eps_y; dissipation >= -1e-12 sigma_y; tangent 2e-6 |C d|; solvers 1e-8; no internal variables 1e-13; plane stress: documented max(1e-8*max(sigma_y,1), 10*1e-10*C_zz)",
+            "rate-dependent behaviours: instead of f <= 0 the documented overstress relation f = phi^-1(dp/dt) is demanded of flowing points",
             "simulation level: two Solves 'agree' = displacement within 1e-6 (relative) of the same Solve on a fresh simulation brought to the same committed state by Solve/Save_Iter",
         ],
         "explanation": "VERIF_SEED only picks the generic direction of the directional tangent check.",
